@@ -431,7 +431,9 @@ func TestC14Soup(t *testing.T) {
 	frags := append([]string{}, hostileTokens...)
 	frags = append(frags, " ", " ", "\n", "a", "xs", "m.k1", "{{ a }}", "{{ a -}}", "{{- a }}", "{%- if a -%}", "{% if a %}", "{% for i in xs %}", "{% endfor %}", "{% endif -%}", "{% set v = 1 %}", "{% include 'inc1' %}",
 		"{% extends 't1' %}", "{% block b %}", "{% endblock %}", "{% macro m(x, y = 1) %}", "{% endmacro %}", "{% import 'lib' as l %}", "{% verbatim %}", "{% endverbatim %}", "{% apply upper %}", "{% endapply %}",
-		"{#", "#}", "{# c #}", "{##}", "\\{{", "\\{%", "{{-}}", "{%-%}", "{{}}", "{%%}", "{{ 'a}}b' }}", "{{ \"%}\" }}", "a|b", "[1, 2]", "{'k': 1}", "'str'", "\"dq\"", "{% else %}", "-}}", "-%}", "{{-", "{%-")
+		"{#", "#}", "{# c #}", "{##}", "\\{{", "\\{%", "{{-}}", "{%-%}", "{{}}", "{%%}", "{{ 'a}}b' }}", "{{ \"%}\" }}", "a|b", "[1, 2]", "{'k': 1}", "'str'", "\"dq\"", "{% else %}", "-}}", "-%}", "{{-", "{%-",
+		// comments where the token stream shows them: inside verbatim, against dashed delimiters
+		"{% verbatim %}a{# c #}b{% endverbatim %}", " {# c #}{{- a }}", "{{ a -}}{# c #} ", "{#- c -#}", " \n{# c #}{%- if a %}y{% endif -%}{# d #}\n ", "{% verbatim %}{{ a }}{# #}{% if %}{% endverbatim %}")
 	rapid.Check(t, func(rt *rapid.T) {
 		n := rapid.IntRange(1, 12).Draw(rt, "n")
 		var b strings.Builder
